@@ -1,6 +1,7 @@
 import XalanModel.C11.DispatchProofs
 import XalanModel.C11.Recycle
 import XalanModel.C11.Token
+import XalanModel.Generated.C11_Callers
 import XalanModel.Generated.C11_Caches
 /-!
 # C11 — an expression has one value, whichever way the caller asks for it
@@ -111,6 +112,28 @@ theorem chars_chunking_admissible {N : Type} (P : Prims N) (nodeChunks : Nat →
       simp [h]
 
 example : AdmissibleEvents [120, 121] [[120], [121]] := by simp [AdmissibleEvents]
+
+/-! ### the XSLT callers named in the property -/
+
+/-- Which `XPath::execute` overload each XSLT instruction uses (regenerated from the call sites by the declared type of the
+out-parameter): `xsl:if`/`xsl:when` → bool, `xsl:value-of` → character events (generic only for trace listeners),
+attribute value templates → string (appending), `xsl:sort` keys → number / string (generic for cached objects),
+`xsl:for-each` → node list, `xsl:variable`/`xsl:with-param`/`xsl:copy-of` → generic, `xsl:number value=` → number. -/
+theorem callers_entry_points :
+    XalanModel.Generated.C11.callers =
+      [("ElemIf", .bool), ("ElemChoose", .bool), ("ElemValueOf", .chars), ("ElemValueOf", .obj), ("AVTPartXPath", .str),
+       ("NodeSorter", .num), ("NodeSorter", .obj), ("NodeSorter", .str), ("ElemForEach", .nodes), ("ElemVariable", .obj),
+       ("ElemWithParam", .obj), ("ElemCopyOf", .obj), ("ElemNumber", .num)] := by decide
+
+/-- "Consequently xsl:if/xsl:when tests, xsl:value-of, attribute value templates, sort keys and numeric arguments all observe
+the same value for the same expression": whatever caller of the regenerated table evaluates `e`, it observes exactly the
+standard conversion, for its entry point, of the one value `eval e`. -/
+theorem caller_observes_standard_conversion {N : Type} (P : Prims N) (hL : ∀ l, P.nsAdd [] l = l) (ctx : Ctx)
+    (e : Expr N) (buf : Str) (c : String × EP) (_hc : c ∈ XalanModel.Generated.C11.callers) :
+    (evalAs P table callee ctx e c.2 buf).norm = convOpt P c.2 buf (eval P ctx e) :=
+  eval_ep_eq_conv_eval P hL ctx e c.2 buf
+
+example : (("AVTPartXPath", EP.str) : String × EP) ∈ XalanModel.Generated.C11.callers := by decide
 
 /-! ### XToken and the conversion helpers the specialised paths call -/
 
